@@ -163,6 +163,14 @@ def run(ctx):
             c = gen_mol.cut_case(rng, nmax=10, aromatic_p=0.2, share_p=rng.choice([0, 0, 0.3]))
         block = '{' + c['s'].split('}.{', 1)[1]
         roundtrip(ctx, 'aa-fragments', block, True, {'kind': 'fragset', 's': block, 'all_atom': True})
+    # bonds of order 1.5 written with ':' between atoms that are NOT written as aromatic (upper case): the order is part
+    # of the fragment and comes back
+    for i in range(ctx.budget(6, 60)):
+        d1, d2 = rng.choice(['[$]', '[>]', '[$A]', '[<b1]']), rng.choice(['[$]', '[<]', '[$A]', '[!]'])
+        block = rng.choice(['{#RING=%sC1:C:C:C:C:C:1%s}', '{#COO=%sCC(:O):O%s}', '{#CUT=%sC:C[>]=[<]%s,#PH=[$]c1ccccc1[<]}',
+                            '{#N=%sC:N:C%s,#M=[$]CC}']) % (d1, d2)
+        ctx.feature('aa-fragments:explicit-aromatic-symbol')
+        roundtrip(ctx, 'aa-fragments', block, True, {'kind': 'fragset', 's': block, 'all_atom': True})
     for _ in range(ctx.budget(150, 3000)):
         full_string(ctx, rng)
 
